@@ -318,6 +318,13 @@ def run_c09(ctx):
         ctx.violations += judge_stream_sources(ctx, cfg, streams)
 
 # ================================================================== C10: truncation => Eof at the cut
+def c10_class(p, e, endpos):
+    """class of a C10 failure; the known finding F10 is: NumberOutOfRange positioned at end of input where the input ends in a number literal"""
+    import re
+    if e and e.get('code') == 'NumRange' and (e['line'], e['col']) == endpos and re.search(rb'[0-9][0-9.eE+-]*$', p):
+        return 'number-out-of-range-at-end-of-input'
+    return 'other'
+
 def judge_c10(ctx, cfg, inputs, aux=None):
     """inputs: documents; for each accepted one check every proper prefix"""
     L = ctx.letters(cfg)
@@ -345,7 +352,7 @@ def judge_c10(ctx, cfg, inputs, aux=None):
                 e = err_fields(o)
                 endpos = pos_of(p, len(p))
                 if e is None or e['cat'] != 'eof' or (e['line'], e['col']) != endpos:
-                    v.append({'what': 'truncation-not-eof', 'cfg': cfg, 'input': hx(p), 'op': op, 'src': src,
+                    v.append({'what': 'truncation-not-eof', 'class': c10_class(p, e, endpos), 'cfg': cfg, 'input': hx(p), 'op': op, 'src': src,
                               'expected': 'ok, or an Eof error at end of input %r (a proper prefix of an accepted document)' % (endpos,),
                               'actual': o, 'aux': {'op': op, 'src': src}, 'shrinkable': False})
     return v
@@ -365,7 +372,7 @@ def judge_c10_space(ctx, cfg, space):
             if d in viable and not is_ok(o):
                 e = err_fields(o)
                 if e is None or e['cat'] != 'eof' or (e['line'], e['col']) != pos_of(d, len(d)):
-                    v.append({'what': 'truncation-not-eof', 'cfg': cfg, 'input': hx(d), 'op': op, 'src': 'b',
+                    v.append({'what': 'truncation-not-eof', 'class': c10_class(d, e, pos_of(d, len(d))), 'cfg': cfg, 'input': hx(d), 'op': op, 'src': 'b',
                               'expected': 'ok or Eof at end of input (it is a proper prefix of an accepted input)', 'actual': o, 'shrinkable': False})
         if not ctx.quiet:
             ctx.distinct_nontrivial += len(viable)
@@ -378,7 +385,7 @@ def run_c10(ctx):
     for cfg in ctx.cfgs:
         docs = list(value_docs(ctx, 1500 if ctx.tier == 'quick' else 15000))
         docs += [b'[1.5e3, -0.25E-2, 1e+9, 12345678901234567890123, 0.0000000000000000000001]', b'{"a\\u00e9\\ud83d\\ude00":[true,false,null],"b":{"c":"\\n"}}',
-                 b' [ -1 , 2.0 ] ', b'"\\ud83d\\ude00"', b'[1e5,1E-5,0.1e+1]']
+                 b' [ -1 , 2.0 ] ', b'"\\ud83d\\ude00"', b'[1e5,1E-5,0.1e+1]', b'1' * 400 + b'e-200', b'[' + b'9' * 330 + b'.5E-100]']
         note_dist(ctx, docs)
         ctx.violations += judge_c10(ctx, cfg, docs)
         for d in docs[:4]:
